@@ -586,12 +586,22 @@ class BaseProject(object, metaclass=ABCMeta):
 
         # 3. Allocate ready tasks to free workers and facilities
         target_workplace_id_list = [wp.ID for wp in self.organization.workplace_list]
+        moved_component_list = []  # components which have been moved in this step
 
         for task in ready_and_working_task_list:
             if task.target_component is not None:
                 # 3-1. Set target component of workplace if target component is ready
+                # (a component moves at most once per step, and not any more once one of
+                # its tasks has got workers in this step)
                 component = task.target_component
-                if component.is_ready():
+                if (
+                    component.is_ready()
+                    and not any(c is component for c in moved_component_list)
+                    and not any(
+                        len(t.allocated_worker_list) > 0
+                        for t in component.targeted_task_list
+                    )
+                ):
                     candidate_workplace_list = task.allocated_workplace_list
                     candidate_workplace_list = sort_workplace_list(
                         candidate_workplace_list,
@@ -639,6 +649,7 @@ class BaseProject(object, metaclass=ABCMeta):
                                 # 3-1-1-2. regsister
                                 component.set_placed_workplace(workplace)
                                 workplace.set_placed_component(component)
+                                moved_component_list.append(component)
                                 break
 
             if not task.auto_task:
